@@ -66,11 +66,10 @@ ASSUMPTIONS = ["the reaction parses with RDKit, has no empty fragment, every ato
 TESTED_NOT_PROVED = [
     "string level: RDKit parsing of the unmapped side gives the implicit-hydrogen form of the mapped side (monitored: isomorphism bit in the oracle), "
     "serialisation of the glued ITS (graph_to_smi) and Standardize.fit - the property oracle runs the whole chain; the model takes the strings as inputs",
-    "default (explicit-hydrogen) mode: proved from the boolean precondition default_okb through rule preparation, gluing and _explicit_h "
-    "(C04_identity_default_end) with ONE premise validated per case: _explicit_h does not raise on the glued ITS (observable: its result); outside "
-    "default_okb (H2 / H+, re-match path) the premise 'the prepared rule describes the pair' is validated per case (describesb, C04_identity_glue_any_rule) "
-    "and the re-match path is covered by correspondence and oracle only; the default mode is not taken through the engine / pruning theorems "
-    "(that the identity satisfies the matcher's predicates on the stripped pattern is compared per case, not proved)",
+    "default (explicit-hydrogen) mode: proved from the boolean preconditions default_okb and own_valence_okb (both evaluated by the model and recomputed "
+    "by the harness on every case) through rule preparation, engine, pruning, gluing and _explicit_h (C04_in_results_engine_default); outside them "
+    "(H2 / H+, hydrogens bonded to hydrogens, the explicit re-match path) the premise 'the prepared rule describes the pair' is validated per case "
+    "(describesb, C04_identity_glue_any_rule) and the re-match path is covered by correspondence and oracle only",
     "strategies comp / bt: refuted in general (C04_comp_bt_refuted, 2 known-finding keys); outside that class and the strict_cc_count guard region they are "
     "covered by correspondence (raw matches enumerated by the model through C06's comp / bt) and the oracle only",
     "reads after a StopIteration of _explicit_h return the half-processed cached list (C04_stale_after_crash: proved about the model, replayed on "
@@ -1035,7 +1034,7 @@ def _opts_cases(tier, rng, corpus_pick=()):
     for hname, r in HAND:
         for core in (True, False):
             for inv in ((False, True) if tier != "quick" else (rng.random() < 0.5,)):
-                for opt in (OPTS if tier != "quick" else rng.sample(OPTS, 2)):
+                for opt in rng.sample(OPTS, 2 if tier == "quick" else 4):
                     c = _mk("hand:" + hname, r, core, inv, rng.choice(["all", "comp", "bt"]), 0, None)
                     c.update(kind="options", name="%s:opts:%s:%s" % (c["name"], opt[0], "pf" if opt[1] else "nopf"), opts=list(opt))
                     out.append(c)
@@ -1115,8 +1114,8 @@ def gen_cases(tier, rng):
                 for core in (True, False):
                     for inv in (False, True):
                         slow21 = (cid == "usp#21" and inv and not core)
-                        # original + 1 rewriting; a second rewriting for the centre of every third reaction (time budget: <= 20 min)
-                        for k in ((0,) if slow21 else ((0, 1, 2) if (core and i % 3 == 0) else (0, 1))):
+                        # original + 1 rewriting (time budget: <= 20 min also on a busy machine)
+                        for k in ((0,) if slow21 else (0, 1)):
                             cases.append(_mk(cid, C[name][i], core, inv, "all" if k == 0 else rng.choice(strategies), k, rng))
         hand_k = (0, 1, 2, 3)
     for hname, r in HAND:
@@ -1142,14 +1141,15 @@ def gen_cases(tier, rng):
     return prepare_all(cases)
 
 
-LEVEL_TEXT = ("Machine-checked proof (Coq, 30 theorems) over an executable model of the round trip reaction -> template (ITS construction, reaction centre, "
+LEVEL_TEXT = ("Machine-checked proof (Coq, 35 theorems) over an executable model of the round trip reaction -> template (ITS construction, reaction centre, "
               "SynRule preparation, _invert_template) -> SynReactor OBJECT on the reaction's own reactants / products (options, pattern preparation, "
               "engine call through C06's model of find_subgraph_mappings, pruning by rule automorphisms through C11's model, _glue_graph, _explicit_h, "
               "its_list / smarts_list with their caches, reverse_reaction). Strategy ALL, both branches of the precondition: under C06's contract for "
               "the one VF2 enumeration a fresh reactor built from the own template has in its_list an ITS that decomposes to the reaction - implicit "
               "mode: exactly, and given RDKit's strings for its sides the reaction string is in smarts_list (turned round again backwards); default "
               "mode (explicit centre hydrogens): in implicit-hydrogen normal form after _strip_explicit_h, gluing and _explicit_h (the re-materialised "
-              "hydrogens fold back exactly), provided _explicit_h does not raise - for the full ITS always and for the centre exactly when no atom outside "
+              "hydrogens fold back exactly; _explicit_h is proved never to raise on any ITS glued from the prepared rule when every template hydrogen has "
+              "at most as many bonds before as after - a boolean evaluated on every case) - for the full ITS always and for the centre exactly when no atom outside "
               "the centre changes charge or hydrogen count, forwards and backwards. Strategies comp / bt: proved to regenerate whenever the substrate has "
               "fewer components than the pattern or the identity separates the pattern components (bt also in the strict_cc_count guard region), and "
               "REFUTED otherwise by a witness (known finding). Reads of one reactor object in any order and number equal fresh reads (and the exact stale "
@@ -1158,9 +1158,8 @@ LEVEL_TEXT = ("Machine-checked proof (Coq, 30 theorems) over an executable model
               "on corpus reactions, their atom-map renumberings and SMILES rewritings on every run; the property itself is run end to end by an "
               "independent oracle.")
 LEVEL_NOTE = ("Trusted: Coq kernel + vm_compute; the hand-written models and harness encoders; RDKit parsing / serialisation and VF2 matching are oracle "
-              "inputs (raw matches compared with the model's verified enumeration when small). Tested, not proved: in the default mode that _explicit_h "
-              "does not raise on the glued ITS and that the identity passes the matcher's predicates on the stripped pattern (both compared per "
-              "case), the H2 / H+ re-match path; RDKit serialisation and Standardize.fit; invariance under renumbering / rewriting (run on "
+              "inputs (raw matches compared with the model's verified enumeration when small). Tested, not proved: the H2 / H+ re-match path of the "
+              "default mode (outside the boolean preconditions default_okb / own_valence_okb); RDKit serialisation and Standardize.fit; invariance under renumbering / rewriting (run on "
               "rewritten inputs). Known: centre templates cannot regenerate reactions with a charge / hydrogen change away from any changed bond "
               "(56 ecoli reactions); explicit-hydrogen re-matching fails for a backwards template that keeps H2 explicit (usp#21); strategies comp / bt "
               "lose an intramolecular reaction next to a spectator offering the missing group (by C06's specification of the strategies).")
